@@ -240,7 +240,7 @@ pub fn vmess_chacha_key(k: &[u8]) -> [u8; 32] {
 }
 
 pub struct Shake {
-    reader: Box<dyn XofReader>,
+    reader: Box<dyn XofReader + Send + Sync>,
 }
 
 impl Shake {
